@@ -9,6 +9,9 @@
           the checked statement, which Model/ScanProj.v models; [false]: a whole statement
           through BuildPlan (ORDER BY / GROUP BY / LIMIT / narrowed scans): verdict only.
 
+   CaseL: FinalLimitPlan + ProjectionPlan + FullScanPlan built from the checked statement
+          (SELECT ... WHERE ... LIMIT start, count), drained in both modes: Model/LimitLazy.v.
+
    code 0 agree; 1 = a twin (Model/EvalVec.v eval_batch, Model/Eval.v eval, Model/ScanProj.v)
    and the implementation differ; 2 = the implementation's own outputs violate the property:
    batch mode completed without error, and row mode failed or returned different content;
@@ -16,7 +19,7 @@
 From Coq Require Import List String ZArith Bool Arith.
 Import ListNotations.
 From KV Require Import Base.Bytes Base.Num Base.Flt Model.Ast Model.Value Model.Eval Model.EvalVec
-                       Model.ScanProj Corr.EvalCommon.
+                       Model.ScanProj Model.LimitLazy Corr.EvalCommon.
 Local Open Scope nat_scope.
 Local Open Scope list_scope.
 
@@ -26,7 +29,9 @@ Inductive sobs := SRows (rows : list (list canon)) | SErr (cls : nat) (pos : Z) 
 Inductive case :=
   | CaseE (e : expr) (rows : list (bytes * bytes * obs)) (b : bobs)
   | CaseS (smodel : bool) (wh : expr) (fields : option (list expr)) (B : nat)
-          (store : list (bytes * bytes)) (rowres batchres : sobs) (blens : list nat).
+          (store : list (bytes * bytes)) (rowres batchres : sobs) (blens : list nat)
+  | CaseL (wh : expr) (fields : option (list expr)) (B start count : nat)
+          (store : list (bytes * bytes)) (rowres batchres : sobs).
 
 Fixpoint canons_eqb (a b : list canon) : bool :=
   match a, b with
@@ -130,10 +135,35 @@ Definition check_s (smodel : bool) (wh : expr) (fields : option (list expr)) (B 
               end in
     worst [cmp_sobs mrow rowres; cb].
 
+Definition stmt_verdict (rowres batchres : sobs) : nat :=
+  match batchres with
+  | SRows rb => match rowres with
+                | SRows rr => if rows_eqb rr rb then 0 else 2
+                | _ => 2
+                end
+  | _ => 0
+  end.
+
+Definition check_l (wh : expr) (fields : option (list expr)) (B start count : nat)
+           (store : list (bytes * bytes)) (rowres batchres : sobs) : nat :=
+  if Nat.eqb (stmt_verdict rowres batchres) 2 then 2
+  else
+    let slots := map (@Some kvpair) store in
+    let mrow := select_limit_row prim_fops re_oom start count wh fields slots in
+    let mbat := select_limit_batch prim_fops re_oom B start count wh fields slots in
+    let cb := match mbat with
+              | Ok outs => cmp_sobs (Ok (List.concat outs)) batchres
+              | Err e => cmp_sobs (Err e) batchres
+              | Panic => cmp_sobs Panic batchres
+              | OutOfModel => 99
+              end in
+    worst [cmp_sobs mrow rowres; cb].
+
 Definition check_case (c : case) : nat :=
   match c with
   | CaseE e rows b => check_e e rows b
   | CaseS m wh fields B store rr rb bl => check_s m wh fields B store rr rb bl
+  | CaseL wh fields B start count store rr rb => check_l wh fields B start count store rr rb
   end.
 
 Fixpoint mism_from (i : nat) (cs : list case) : list (nat * nat) :=
